@@ -173,6 +173,7 @@ def LOk (cfg : Cfg) (M : List Nat) (adr : Nat → Nat) (b : Bus) (H Lo : Int) (j
     (∀ t rest, rs = t :: rest → cvis cfg t (b.seen.getD j 0) < t.bytes.length) ∧
     st.s.lastBusActivity = some l ∧ (l ≤ b.seen.getD j 0 ∨ ((∀ t ∈ rs, l < t.start) ∧ l ≤ Lo)) ∧
     (∀ t ∈ rs.dropLast, ∀ a, t.bytes ≠ tokenBytes (adr j) a) ∧
+    ((∃ t a, b.txs.getLast? = some t ∧ t.bytes = tokenBytes (adr j) a) → rs ≠ []) ∧
     (if idle = true then
       (∃ np coll, st.s.st = .activeIdle none np coll) ∧
         nextArr cfg H rs (b.seen.getD j 0) < l + (st.s.p.tokenLostTimeout : Nat)
@@ -182,17 +183,17 @@ def LOk (cfg : Cfg) (M : List Nat) (adr : Nat → Nat) (b : Bus) (H Lo : Int) (j
 theorem LOk.other {cfg : Cfg} {M : List Nat} {adr : Nat → Nat} {b : Bus} {H Lo : Int} {j : Nat} {st : NetStation}
     (h : LOk cfg M adr b H Lo j st) (i : Nat) (now : Int) (hij : i ≠ j) :
     LOk cfg M adr { b with seen := b.seen.set i now } H Lo j st := by
-  obtain ⟨hok, dn, rs, idle, l, h1, h2, h3, h4, h5, h0, h6, h7, h8, h9, h10⟩ := h
+  obtain ⟨hok, dn, rs, idle, l, h1, h2, h3, h4, h5, h0, h6, h7, h8, h9, hF, h10⟩ := h
   refine ⟨hok, dn, rs, idle, l, h1, ?_⟩
   simp only
   rw [seen_set_other b i j now hij]
-  exact ⟨h2, h3, h4, h5, h0, h6, h7, h8, h9, h10⟩
+  exact ⟨h2, h3, h4, h5, h0, h6, h7, h8, h9, hF, h10⟩
 
 /-- The horizon came closer / the lower bound moved on. -/
 theorem LOk.mono {cfg : Cfg} {M : List Nat} {adr : Nat → Nat} {b : Bus} {H Lo H' Lo' : Int} {j : Nat} {st : NetStation}
     (h : LOk cfg M adr b H Lo j st) (hH : H' ≤ H) (hLo : Lo ≤ Lo') : LOk cfg M adr b H' Lo' j st := by
-  obtain ⟨hok, dn, rs, idle, l, h1, h2, h3, h4, h5, h0, h6, h7, h8, h9, h10⟩ := h
-  refine ⟨hok, dn, rs, idle, l, h1, h2, h3, h4, h5, h0, h6, h7, ?_, h9, ?_⟩
+  obtain ⟨hok, dn, rs, idle, l, h1, h2, h3, h4, h5, h0, h6, h7, h8, h9, hF, h10⟩ := h
+  refine ⟨hok, dn, rs, idle, l, h1, h2, h3, h4, h5, h0, h6, h7, ?_, h9, hF, ?_⟩
   · rcases h8 with h8 | ⟨h8, h8'⟩
     · exact .inl h8
     · exact .inr ⟨h8, by omega⟩
@@ -254,7 +255,7 @@ theorem LOk.send {cfg : Cfg} {M : List Nat} {adr : Nat → Nat} {n : Nat} {b b' 
     (htx' : b'.txs = (b.txs ++ [({ start := q, sender := x, bytes := bytes, dropped := false } : Transmission)]).filter
       fun t => decide (b.txEnd t + 100000 > q))
     (hseen : b'.seen = b.seen) : LOk cfg M adr b' H' Lo' j st := by
-  obtain ⟨hok, dn, rs, idle, l, h1, h2, h3, h4, h5, h0, h6, h7, h8, h9, h10⟩ := h
+  obtain ⟨hok, dn, rs, idle, l, h1, h2, h3, h4, h5, h0, h6, h7, h8, h9, hF, h10⟩ := h
   have hc := hlog.chained
   rw [h1] at hc
   have hcrs : CChained cfg rs := (List.pairwise_append.1 hc).2.1
@@ -288,7 +289,8 @@ theorem LOk.send {cfg : Cfg} {M : List Nat} {adr : Nat → Nat} {n : Nat} {b b' 
     rw [arrived_append]
     unfold arrived
     simp only [List.map_cons, List.map_nil, List.flatten_cons, List.flatten_nil, hv0, List.take_zero, List.append_nil]
-  refine ⟨fun o ho => h2 o (List.mem_filter.1 ho).1, ?_, by rw [harr]; exact h4, by rw [harr]; exact h5, ?_, ?_, h7, ?_, ?_, ?_⟩
+  refine ⟨fun o ho => h2 o (List.mem_filter.1 ho).1, ?_, by rw [harr]; exact h4, by rw [harr]; exact h5, ?_, ?_, h7, ?_, ?_,
+    fun _ => by simp, ?_⟩
   · intro t ht
     rcases List.mem_append.1 ht with ht | ht
     · exact h3 t ht
